@@ -30,7 +30,8 @@ ADVERSARIAL_ATTRS = [
     '#[educe(Debug(name("type")))]', '#[educe(Debug = "r#type")]', '#[educe(Debug(name = " padded "))]', '#[educe(Debug(rename = "1abc"))]', '#[educe(Debug(name("")))]',
     '#[educe(Ord(rank(" 1")))]', '#[educe(Ord(rank = "+1"))]', '#[educe(Ord(rank("0x10")))]', '#[educe(Hash(method("r#fn::x")))]', '#[educe(Hash(method = " m "))]', "#[educe(Debug(name(1 foo)))]", "#[educe(Debug(name(true false)))]", "#[educe(Default(expr(1, 2)))]", "#[educe(Hash(method(1)))]",
 ]
-ODD_TYPES = ["(u8)", "&'static (u8)", "&'static &'static (u8)", "&'static (dyn Fn(u32) -> u32 + Sync)", "fn(u8) -> u8", "[(u8); 2]",
+ODD_TYPES = ["&'static (dyn ::core::fmt::Debug + Send)", "&'static (dyn ::core::fmt::Debug + Send + 'static)", "Box<(dyn Fn(u8) -> u8 + Send)>",
+             "(u8)", "&'static (u8)", "&'static &'static (u8)", "&'static (dyn Fn(u32) -> u32 + Sync)", "fn(u8) -> u8", "[(u8); 2]",
              "((u8),)", "*const (u8)", "&'static [(u8)]", "Option<&'static (u8)>"]
 ITEMS = [
     "struct S;", "struct S();", "struct S {}", "struct S(u8);", "struct S { a: u8, b: &'static &'static &'static u8 }",
@@ -129,7 +130,7 @@ def main(tier):
     cases = list(enumerate(cases))
     try:
         t1 = time.time()
-        real = attr.expand_real(cases)
+        real = attr.expand_real(cases, group=True)
         tie["extra"]["expand_wall_s"] = round(time.time() - t1, 2)
         model = attr.expand_model(real)
     except (common.BuildError, RuntimeError, subprocess.TimeoutExpired) as e:
@@ -144,6 +145,11 @@ def main(tier):
         if r["outcome"] == "parse_error":
             continue
         tie["evaluations"] += 1
+        gf, gb = attr.grouped_findings(r, s)
+        tie["failing"] += gf[:1]
+        for b in gb[:1]:
+            tie["broken"].append("B4: " + b)
+            tie["broken_details"].append({"rust_source": s})
         if r["outcome"] == "err":
             classes.add(attr.classify(r["message"]))
         if r["outcome"] == "abort":
@@ -181,7 +187,7 @@ def main(tier):
             tie["failing"].append({"what": "stack overflow inside the proc-macro on a deeply nested expression", "nesting": depth})
     tie["rule"] = ("%d adversarial attribute forms x item shapes (type, variant and field positions) plus token-level mutations (delete, "
                    "duplicate, swap, replace, insert, truncate) of valid #[educe(...)] arguments from all behavioural generators; run in-process "
-                   "under catch_unwind; outcome kind (ok / diagnostic / panic) compared with the model; in-process panics re-run through rustc. "
+                   "under catch_unwind, each also with its field types inside None-delimited groups (whole type / referent of a reference / every parenthesised type, as `$t:ty` macro fragments arrive); outcome kind (ok / diagnostic / panic) compared with the model; in-process panics re-run through rustc. "
                    "distinct_nontrivial = accepted inputs + distinct diagnostic classes hit" % len(ADVERSARIAL_ATTRS))
     tie["samples"] = [{"rust_source": src[i], "outcome": real[i]["outcome"], "message": real[i].get("message", "")[:120]} for i in list(src)[5::997][:5]]
     return common.finish("C17", tier, t0, proof, tie)
